@@ -287,8 +287,27 @@ SHAPES = {
 }
 
 
-def body_dataset(ctx, kind):
+def _short_lived_triangulations():
+    """Other datasets (with concave cells) triangulated and dropped earlier in the same process."""
+    import gc
     from emsarray.operations.triangulate import triangulate_dataset
+    names = list(SHAPES)
+    for rep in range(5):
+        nodes, faces = [], []
+        for nm in names[rep:] + names[:rep]:
+            base = len(nodes)
+            nodes.extend([(x + 3.0 * rep, y - 2.0 * rep) for x, y in SHAPES[nm]])
+            faces.append(list(range(base, base + len(SHAPES[nm]))))
+        d = builders.ugrid((nodes, faces), fill='nan')
+        triangulate_dataset(d)
+        del d
+        gc.collect()
+
+
+def body_dataset(ctx, kind, after_others=False):
+    from emsarray.operations.triangulate import triangulate_dataset
+    if after_others:
+        _short_lived_triangulations()
     which = int(ctx.int('variant', 0, 3))
     if kind in ('mesh', 'mesh-small', 'mesh-attr'):
         names = list(SHAPES)
@@ -423,6 +442,8 @@ def cases(tier):
                        max_paths=50000, split=16)
     for kind in ('mesh', 'mesh-small', 'mesh-attr', 'cf2d', 'cf2d-dart', 'shoc_standard', 'cf1d', 'cf1d-int', 'sparse8') + (() if q else ('sparse16',)):
         yield Case(f'dataset:{kind}', body_dataset, dict(kind=kind), max_paths=20)
+    for kind in ('mesh', 'cf2d-dart'):
+        yield Case(f'dataset:{kind}:after-other-datasets', body_dataset, dict(kind=kind, after_others=True), max_paths=20)
 
 
 def functions():
